@@ -119,6 +119,43 @@ def report_oracle(ctx, pid, out):
                        "observed": m["observed"], "how": f"./check {pid} --replay <this file>"})
 
 
+def lean_json(j) -> str:
+    if j is None:
+        return ".null"
+    if isinstance(j, bool):
+        return f"(.bool {common.lean_bool(j)})"
+    if isinstance(j, int):
+        return f"(.int {common.lean_int(j)})"
+    if isinstance(j, float):
+        return f"(.dec {common.lean_name(repr(j))})"
+    if isinstance(j, str):
+        return f"(.str {common.lean_name(j)})"
+    if isinstance(j, list):
+        return "(.arr [" + ", ".join(lean_json(x) for x in j) + "])"
+    return "(.obj [" + ", ".join(f"({common.lean_name(k)}, {lean_json(v)})" for k, v in j.items()) + "])"
+
+
+def witness_module(ctx, pid):
+    """Companion theorems for open known findings: the model itself fails on the recorded witness
+    (kernel evaluation), so the exclusion stays demonstrably real; the harness also replays the
+    witness on the real code."""
+    kfs = [k for k in ctx.known if k.get("property") == pid and k.get("status") == "open" and k.get("witness")]
+    if not kfs:
+        return None, []
+    lines = ["import LspVerif.Core.Cattrs", "import GenEnv", "open LspVerif", ""]
+    names = []
+    for i, k in enumerate(kfs):
+        w = k["witness"]
+        lines.append(f"/-- known finding: {k['what'][:200]} -/")
+        lines.append(f"theorem {pid}_known_finding_{i} : (structTy Gen.env 60 (.cls {common.lean_name(w['root'])}) {lean_json(w['input'])}).toOption.isSome = false := by decide +kernel")
+        lines.append(f"#print axioms {pid}_known_finding_{i}")
+        names.append(f"{pid}_known_finding_{i}")
+        p = common.run_py(common.VERIF / "tools/search/convcheck.py", [pid, "--one", w["root"], json.dumps(w["input"])], check=False)
+        still = p.returncode == 0 and json.loads(p.stdout)["mismatches"]
+        ctx.notes.append(f"known finding witness replayed on the real code: {'still fails' if still else 'NO LONGER FAILS (stale entry)'}: {k['key']}")
+    return "\n".join(lines) + "\n", names
+
+
 def run(ctx, pid, *, ops_fn, inst_fn=None, theorems=(), trusted=(), assumptions=()):
     ctx.trusted += [
         "translators x_meta.py, x_pkg.py, x_valid.py, x_hooks.py (live functions' source -> hook programs; default-disambiguator closures read from the functions cattrs built)",
@@ -141,6 +178,13 @@ def run(ctx, pid, *, ops_fn, inst_fn=None, theorems=(), trusted=(), assumptions=
             failed = ctx.add_lean_results(res, theorems_expected={layers[-1][-1]: list(theorems)})
             for r in failed:
                 problems.append(f"{r.name}: {r.out[-1500:]}")
+        wtext, wnames = witness_module(ctx, pid)
+        if wtext:
+            common.write_module(ctx.work, "Witness", wtext)
+            res = common.lean_compile(ctx.work, [["Witness"]])
+            failed = ctx.add_lean_results(res, theorems_expected={"Witness": wnames})
+            for r in failed:
+                ctx.notes.append("known-finding witness theorem no longer holds in the model (finding repaired or model drifted): " + r.out[-400:])
         ops = ops_fn(streams(ctx))
         problems += correspondence(ctx, ops)
         for o in ops[:: max(1, len(ops) // 3)][:3]:
